@@ -92,9 +92,9 @@ CHECKS = {
         technique="bounded-exhaustive enumeration of the mnemonic codec position-wise (every value of every word, every bit of the entropy) and of SID derivation over all ordered pairs of 8 static keys x 4 secrets; plus stateless model checking (deviation-bounded DFS under the controlled scheduler) of consecutive sessions through the real Server/Client over a fake relay, judging the stream ids every handed-out connection uses",
         text="decode(encode(e)) keeps the 110 significant bits and zeroes the rest; encode(decode(w)) = w; client and server derive the same id before and after pairing, send/receive ids cross over and differ only in the direction bit, distinct secrets give distinct ids. At the relay: in every execution of three consecutive sessions (first contact, same-rendezvous reconnects through RefreshServerConn/RefreshClientConn, the move after a version-2 pairing) with at most the listed scheduling deviations, no connection uses one stream for both directions, the two sides are mirrored, all sessions meet, and both sides move after the pairing.",
         note="The 2^110 domain is covered position-wise, not in full (the codec is a plain 11-bit-per-word bit stream). The relay part is exhaustive within the stated deviation bounds on an instrumented copy (see C05/C11)."),
-    "C20": dict(built=True, engine=E2, level=MC, design="4/C20",
-        technique="explicit-state breadth-first search over TimeoutManager event histories under a virtual clock (synctest), canonicalised states, invariants evaluated on every transition of the real code",
-        text="BFS to depth 7 (quick) / 9 (thorough) over Sent/Received/sleep events for 12 adaptive and 2 static configurations: the adaptive timeout never drops below 1 s, the base changes only on a response to a never-retransmitted packet (and to max(1s, multiplier x RTT)), boosts happen only on a retransmitted DATA and at most once per base interval, a fresh sample clears the boost, a static timeout never changes.",
+    "C20": dict(built=True, engine=E2 + "+" + E1, level=MC, design="4/C20",
+        technique="explicit-state breadth-first search over TimeoutManager event histories under a virtual clock (synctest), canonicalised states, invariants evaluated on every transition of the real code; plus stateless model checking (deviation-bounded DFS under the controlled scheduler) of the live connection in adaptive mode, judged on how it feeds its timeout manager",
+        text="BFS to depth 7 (quick) / 9 (thorough) over Sent/Received/sleep events for 12 adaptive and 2 static configurations: the adaptive timeout never drops below 1 s, the base changes only on a response to a never-retransmitted packet (and to max(1s, multiplier x RTT)), boosts happen only on a retransmitted DATA and at most once per base interval, a fresh sample clears the boost, a static timeout never changes. Live part: in every execution within budget of adaptive bidirectional traffic (every or every second response a candidate sample, links with and without latency, drops and duplicates) a DATA packet put on the wire a second time is registered as a retransmission (the timeout is boosted in that step unless a boost within the base interval made it a no-op), the base of the timeout only moves when an ACK for a packet transmitted exactly once has arrived since the previous move, and the timeout never falls below one second.",
         note="Alphabet: sequence numbers 0,1; sleeps {150ms,400ms,1s,2.5s}. float32 boost arithmetic compared within 1 microsecond. The oracle keeps its own sample bookkeeping, independent of the implementation's."),
     "C19": dict(built=True, engine=E2, level=EX, design="4/C19",
         technique="bounded-exhaustive enumeration of codec inputs against a round-trip oracle (every value of every field; every byte string up to 3 bytes, 4 bytes by tier)",
